@@ -45,9 +45,9 @@ WillVariants == {[will |-> 0, wq |-> 0, wr |-> 0, wtl |-> 0, wml |-> 0]} \cup
                  [will |-> 1, wq |-> 2, wr |-> 1, wtl |-> 65535, wml |-> 16384]}
 ConnectCases ==
   {[ty |-> "CONNECT", ver |-> ver, clean |-> cl, will |-> w.will, wq |-> w.wq, wr |-> w.wr, wtl |-> w.wtl, wml |-> w.wml,
-    ul |-> ul, pwl |-> pwl, ka |-> ka, cidl |-> cidl] :
-     ver \in {3, 4}, cl \in 0..1, w \in WillVariants, ul \in {0, 1, 128}, pwl \in {0, 127}, ka \in {0, 65535},
-     cidl \in {1, 23, 32}} \cup
+    ul |-> up[1], pwl |-> up[2], ka |-> ka, cidl |-> cidl] :
+     ver \in {3, 4}, cl \in 0..1, w \in WillVariants, ka \in {0, 65535}, cidl \in {1, 23, 32},
+     up \in {<<0, 0>>, <<1, 0>>, <<1, 127>>, <<128, 0>>, <<128, 127>>}} \cup    \* [MQTT-3.1.2-22] no password without user name
   {[ty |-> "CONNECT", ver |-> 4, clean |-> 1, will |-> 0, wq |-> 0, wr |-> 0, wtl |-> 0, wml |-> 0,
     ul |-> ul, pwl |-> 0, ka |-> 60, cidl |-> 0] : ul \in {0, 65535}}     \* zero-length client id needs CleanSession 1
 
@@ -177,7 +177,7 @@ SelfConsistent ==
   Mode = "cases" =>
     LET w == Wire(st) IN
       /\ Size(w) >= 2
-      /\ Explicit(w) => (LET p == Parse(Bytes(w)) IN p.ok /\ p.len = Len(w)
+      /\ (Explicit(w) /\ st.ty # "CONNECT") => (LET p == Parse(Bytes(w)) IN p.ok /\ p.len = Len(w)
                             /\ (st.ty \in DOMAIN AckFirst => p.id = st.id)
                             /\ (st.ty = "CONNACK" => p.sp = st.sp /\ p.rc = st.code)
                             /\ (st.ty = "SUBACK" => p.id = st.id /\ p.k = st.k))
